@@ -6,6 +6,7 @@ LEVEL = "exploration"
 ENGINES = ['alnmon', 'climon']
 TECHNIQUE = 'reference enumeration of admissible occurrences vs. the real match_to() (completeness oracle)'
 LEVEL_TEXT = 'For each generated (configuration, read) pair an independent enumeration/DP decides whether an admissible occurrence exists; then the real match_to() must report a match, and reported matches must respect the leftmost/rightmost exact-copy clauses. Held = no miss among the cases where the premise was true (counted as non-trivial).'
+LEVEL_TEXT += ' Several anchored adapters looked up through the index at the command line: a read whose anchored end is a copy of one adapter with as many N / non-base characters as that adapter tolerates (also adapters with a literal N under -N) must be trimmed unless a second adapter admits it too.'
 LEVEL_NOTE = 'Trusted base: verif/refmodel.py admissible_ungapped / exists_gapped_no_adapter_start_skip / exact_full_copies. The with-indels clause is applied only to the adapter types the statement names.'
 VARIANTS = {"quick": ["plain"], "thorough": ["plain"]}
 BUDGET_S = {"quick": 120, "thorough": 2400}
